@@ -45,3 +45,8 @@ Theorem C11_explicit_code_kept : forall ts seen out nm c, dedupe_terms seen ts =
   In (nm, c) seen -> c <> (-1) -> NoDup (map fst seen) -> In (nm, c) out.
 Proof. exact dedupe_keeps_explicit. Qed.
 Print Assumptions C11_explicit_code_kept.
+
+(* a character constant is a terminal whose code is the character: the byte between the quotes, 0..255 *)
+Theorem C11_character_constant_code : forall c, char_code c = Z.of_nat c.
+Proof. intros c. reflexivity. Qed.
+Print Assumptions C11_character_constant_code.
